@@ -140,6 +140,14 @@ impl Sub for Rows {
          non-trivial = quoted surface, quoted feature cell, ≥2 homographs, blank line or missing final newline; distinct = hash(csv bytes)".into()
     }
     fn check(&self, case: &CsvCase, ctx: &mut Ctx) -> Result<(), String> {
+        self.check_case(case, ctx)?;
+        ctx.sample(|| serde_json::json!({"csv": render_csv(case), "matrix_header": format!("{} {}", case.num_right, case.num_left), "as_user": case.as_user}));
+        Ok(())
+    }
+}
+
+impl Rows {
+    pub fn check_case(&self, case: &CsvCase, ctx: &mut Ctx) -> Result<(), String> {
         let csv = render_csv(case);
         let matrix = format!("{} {}\n", case.num_right, case.num_left);
         let chardef = "DEFAULT 0 1 0\n";
@@ -190,13 +198,11 @@ impl Sub for Rows {
             })
             .map_err(|p| format!("tokenize({s:?}): {p}"))?;
             ctx.eval();
-            let schars: Vec<char> = s.chars().collect();
             // expected lexicon candidates starting at 0: every kept row whose surface is a prefix
             let mut want: BTreeMap<(usize, u32, u16, u16, i32), u32> = BTreeMap::new();
             for (k, row) in kept.iter().enumerate() {
-                let rc: Vec<char> = row.surface.chars().collect();
-                if rc.len() <= schars.len() && schars[..rc.len()] == rc[..] {
-                    *want.entry((rc.len(), k as u32, row.left, row.right, i32::from(row.cost))).or_insert(0) += 1;
+                if s.starts_with(row.surface.as_str()) {
+                    *want.entry((row.surface.chars().count(), k as u32, row.left, row.right, i32::from(row.cost))).or_insert(0) += 1;
                 }
             }
             let mut got: BTreeMap<(usize, u32, u16, u16, i32), u32> = BTreeMap::new();
@@ -230,7 +236,6 @@ impl Sub for Rows {
         if quoted_surface || quoted_cell || homographs || blanks || !case.final_newline {
             ctx.nontrivial(&csv);
         }
-        ctx.sample(|| serde_json::json!({"csv": csv, "matrix_header": matrix.trim(), "as_user": case.as_user}));
         Ok(())
     }
 }
@@ -244,9 +249,12 @@ pub fn run(opts: &Opts) -> Report {
     let a = Rows;
     crate::props::committed_replays(&a, opts, &mut rep);
     run_sub(&a, opts, opts.tier.pick(30_000, 500_000), &mut rep);
+    let sc = crate::props::scale::RowsScale;
+    crate::props::committed_replays(&sc, opts, &mut rep);
+    run_sub(&sc, opts, opts.tier.pick(320, 6000), &mut rep);
     rep
 }
 
 pub fn replay(path: &Path) -> Option<i32> {
-    crate::props::try_strict(&Rows, "C11", path)
+    crate::props::try_strict(&Rows, "C11", path).or_else(|| crate::props::try_strict(&crate::props::scale::RowsScale, "C11", path))
 }
